@@ -346,4 +346,181 @@ theorem octaEncode_eq_model (t : OctaT) (orig pred : Int × Int) (hwf : t.WF) (h
   rw [einD, ek1', ek2, ek3', ek4, ep1b, ep0, IsInBottomLeft_eq_model, IsInBottomLeft_eq_model]
   simp only [mo2, mp2, mrc, minBL, mo1, mp1]
   cases minD <;> simp <;> split <;> simp_all
+/-! ### integer vectors → octahedral coordinates (normal_compression_utils.h) -/
+
+theorem IntegerVectorToQuantizedOctahedralCoords_eq_model (t : OctaT) (x y z : Int) (hwf : t.WF)
+    (hsum : iabs x + iabs y + iabs z = t.center) :
+    OctahedronToolBox.IntegerVectorToQuantizedOctahedralCoords (ofOctaT t) x y z = Octa.intVecToCoords t (x, y, z) := by
+  have hwf' := hwf
+  obtain ⟨h1, h2, h3, h4⟩ := hwf'
+  have key : ∀ s tt, Octa.inGrid t (s, tt) →
+      OctahedronToolBox.CanonicalizeOctahedralCoords (ofOctaT t) s tt = Octa.canonicalize t (s, tt) :=
+    fun s tt hg => CanonicalizeOctahedralCoords_eq_model t s tt hwf hg
+  unfold iabs at hsum
+  unfold OctahedronToolBox.IntegerVectorToQuantizedOctahedralCoords Octa.intVecToCoords
+  have ec : (ofOctaT t).center_value_ = t.center := rfl
+  have em : (ofOctaT t).max_value_ = t.maxV := rfl
+  simp only [ec, em, cAbs, iabs]
+  by_cases hx : x ≥ 0 <;> by_cases hy : y < 0 <;> by_cases hz : z < 0 <;>
+    simp only [hx, hy, hz, show (x < 0) = ¬ (x ≥ 0) by simp, if_true, if_false, not_true_eq_false, not_false_eq_true] at hsum ⊢ <;>
+    simp (disch := omega) only [wrapI32_id] <;>
+    (rw [key _ _ (by unfold Octa.inGrid; dsimp only; omega)])
+
+
+theorem tdiv_mul_bound_nonneg (x c s : Int) (hs : 0 < s) (hc : 0 ≤ c) (h0 : 0 ≤ x) (h1 : x ≤ s) :
+    0 ≤ Int.tdiv (x * c) s ∧ Int.tdiv (x * c) s ≤ c := by
+  have hxc : 0 ≤ x * c := Int.mul_nonneg h0 hc
+  rw [Int.tdiv_eq_ediv_of_nonneg hxc]
+  refine ⟨Int.ediv_nonneg hxc (by omega), ?_⟩
+  have : x * c ≤ c * s := by
+    rw [Int.mul_comm c s]; exact Int.mul_le_mul_of_nonneg_right h1 hc
+  calc x * c / s ≤ c * s / s := Int.ediv_le_ediv hs this
+    _ = c := Int.mul_ediv_cancel c (by omega)
+
+theorem tdiv_mul_bound (x c s : Int) (hs : 0 < s) (hc : 0 ≤ c) (h0 : -s ≤ x) (h1 : x ≤ s) :
+    -c ≤ Int.tdiv (x * c) s ∧ Int.tdiv (x * c) s ≤ c := by
+  by_cases hx : 0 ≤ x
+  · have := tdiv_mul_bound_nonneg x c s hs hc hx h1; omega
+  · have := tdiv_mul_bound_nonneg (-x) c s hs hc (by omega) (by omega)
+    rw [Int.neg_mul, Int.neg_tdiv] at this; omega
+
+theorem mul_bound (x c : Int) (hx : -2^31 < x ∧ x < 2^31) (hc : 0 ≤ c ∧ c < 2^29) :
+    -2^63 ≤ x * c ∧ x * c < 2^63 := by
+  have key : ∀ a : Int, 0 ≤ a → a < 2^31 → 0 ≤ a * c ∧ a * c ≤ 2^31 * 2^29 := by
+    intro a h0 h1
+    exact ⟨Int.mul_nonneg h0 hc.1, Int.mul_le_mul (by omega) (by omega) hc.1 (by omega)⟩
+  by_cases h : 0 ≤ x
+  · have := key x h hx.2; omega
+  · have := key (-x) (by omega) (by omega)
+    rw [Int.neg_mul] at this; omega
+
+theorem CanonicalizeIntegerVector_eq_model (t : OctaT) (x y z : Int) (hwf : t.WF)
+    (hx : -2^31 < x ∧ x < 2^31) (hy : -2^31 < y ∧ y < 2^31) (hz : -2^31 < z ∧ z < 2^31) :
+    OctahedronToolBox.CanonicalizeIntegerVector (ofOctaT t) x y z = Octa.canonicalizeIntVec t (x, y, z) := by
+  obtain ⟨h1, h2, h3, h4⟩ := hwf
+  unfold OctahedronToolBox.CanonicalizeIntegerVector Octa.canonicalizeIntVec
+  have ec : (ofOctaT t).center_value_ = t.center := rfl
+  simp only [ec]
+  have ax : wrapI32 (cAbs x) = iabs x := by unfold cAbs iabs; split <;> exact wrapI32_id _ (by omega) (by omega)
+  have ay : wrapI32 (cAbs y) = iabs y := by unfold cAbs iabs; split <;> exact wrapI32_id _ (by omega) (by omega)
+  have az : wrapI32 (cAbs z) = iabs z := by unfold cAbs iabs; split <;> exact wrapI32_id _ (by omega) (by omega)
+  have bx : 0 ≤ iabs x ∧ iabs x < 2^31 ∧ -iabs x ≤ x ∧ x ≤ iabs x := by unfold iabs; split <;> omega
+  have by' : 0 ≤ iabs y ∧ iabs y < 2^31 ∧ -iabs y ≤ y ∧ y ≤ iabs y := by unfold iabs; split <;> omega
+  have bz : 0 ≤ iabs z ∧ iabs z < 2^31 := by unfold iabs; split <;> omega
+  rw [ax, ay, az]
+  have es : wrapI64 (wrapI64 (iabs x + iabs y) + iabs z) = iabs x + iabs y + iabs z := by
+    have e1 : wrapI64 (iabs x + iabs y) = iabs x + iabs y := wrapI64_id _ (by omega) (by omega)
+    rw [e1, wrapI64_id _ (by omega) (by omega)]
+  rw [es]
+  generalize hS : iabs x + iabs y + iabs z = S at *
+  try dsimp only
+  by_cases h0 : S = 0
+  · simp only [h0, if_true]
+  · simp only [h0, if_false]
+    have hS0 : 0 < S := by omega
+    have tx := tdiv_mul_bound x t.center S hS0 (by omega) (by omega) (by omega)
+    have ty := tdiv_mul_bound y t.center S hS0 (by omega) (by omega) (by omega)
+    have mx := mul_bound x t.center hx ⟨by omega, by omega⟩
+    have my := mul_bound y t.center hy ⟨by omega, by omega⟩
+    rw [wrapI64_id (x * t.center) mx.1 mx.2, wrapI64_id (y * t.center) my.1 my.2]
+    generalize hX : Int.tdiv (x * t.center) S = X at *
+    generalize hY : Int.tdiv (y * t.center) S = Y at *
+    rw [wrapI64_id X (by omega) (by omega), wrapI64_id Y (by omega) (by omega),
+      wrapI32_id X (by omega) (by omega), wrapI32_id Y (by omega) (by omega)]
+    have aX : wrapI32 (cAbs X) = iabs X := by unfold cAbs iabs; split <;> exact wrapI32_id _ (by omega) (by omega)
+    have aY : wrapI32 (cAbs Y) = iabs Y := by unfold cAbs iabs; split <;> exact wrapI32_id _ (by omega) (by omega)
+    have bX : 0 ≤ iabs X ∧ iabs X ≤ t.center := by unfold iabs; split <;> omega
+    have bY : 0 ≤ iabs Y ∧ iabs Y ≤ t.center := by unfold iabs; split <;> omega
+    rw [aX, aY]
+    have e1 : wrapI32 (t.center - iabs X) = t.center - iabs X := wrapI32_id _ (by omega) (by omega)
+    rw [e1]
+    have e2 : wrapI32 (t.center - iabs X - iabs Y) = t.center - iabs X - iabs Y := wrapI32_id _ (by omega) (by omega)
+    rw [e2]
+    have e3 : wrapI32 (-(t.center - iabs X - iabs Y)) = -(t.center - iabs X - iabs Y) := wrapI32_id _ (by omega) (by omega)
+    rw [e3]
+
+
+/-! ### legacy (non canonicalized) octahedron transform (prediction_scheme_normal_octahedron_{de,en}coding_transform.h) -/
+
+theorem u32_sub (a b : Int) : wrapI32 (wrapU32 (wrapU32 a - wrapU32 b)) = wrap32 (a - b) := by
+  unfold wrapI32 wrapU32 wrap32; omega
+theorem u32_add (a b : Int) : wrapI32 (wrapU32 (wrapU32 a + wrapU32 b)) = wrap32 (a + b) := by
+  unfold wrapI32 wrapU32 wrap32; omega
+
+theorem legacyDecode_eq_model (t : OctaT) (pred corr : Int × Int) (hwf : t.WF) :
+    PredictionSchemeNormalOctahedronDecodingTransform.ComputeOriginalValue (ofOctaT t) pred corr =
+      Octa.legacyDecOrig t pred corr := by
+  unfold PredictionSchemeNormalOctahedronDecodingTransform.ComputeOriginalValue Octa.legacyDecOrig
+  extract_lets gc gp0 ginD gr1 gp1a gp1b gp1 go0 go1a go1b gr2 go2a go2b go2 go3 mc mp0 minD mp1 mo0 mo1 mo2
+  have egc : gc = (mc, mc) := rfl
+  have ep0 : gp0 = mp0 := by
+    simp only [gp0, mp0, egc, mc, u32_sub]
+  have ip0 : I32 mp0.1 ∧ I32 mp0.2 := ⟨wrap32_I32 _, wrap32_I32 _⟩
+  have einD : ginD = minD := by
+    simp only [ginD, minD, ep0]; exact IsInDiamond_eq_model t _ _ hwf
+  have er1 : gr1 = Octa.invertDiamond t mp0 := by
+    simp only [gr1, ep0]
+    exact InvertDiamond_eq_model t _ _ hwf ip0.1 ip0.2
+  have ep1 : gp1 = mp1 := by
+    simp only [gp1, gp1b, gp1a, mp1, er1, einD, ep0]
+    cases minD <;> simp
+  have eo0 : go0 = mo0 := by
+    simp only [go0, mo0, ep1, u32_add]
+  have eo1 : go1b = mo1 := by
+    simp only [go1b, go1a, mo1, eo0, PredictionSchemeNormalOctahedronTransformBase.ModMax]
+    rw [ModMax_eq_model t _ hwf (by simp only [mo0]; exact wrap32_I32 _),
+      ModMax_eq_model t _ hwf (by simp only [mo0]; exact wrap32_I32 _)]
+  have io1 : I32 mo1.1 ∧ I32 mo1.2 := by
+    have b1 := modMax_bound t mo0.1 hwf (by simp only [mo0]; exact wrap32_I32 _)
+    have b2 := modMax_bound t mo0.2 hwf (by simp only [mo0]; exact wrap32_I32 _)
+    obtain ⟨h1, h2, h3, h4⟩ := hwf
+    simp only [mo1]; unfold I32; omega
+  have er2 : gr2 = Octa.invertDiamond t mo1 := by
+    simp only [gr2, eo1]
+    exact InvertDiamond_eq_model t _ _ hwf io1.1 io1.2
+  have eo2 : go2 = mo2 := by
+    simp only [go2, go2b, go2a, mo2, er2, einD, eo1]
+    cases minD <;> simp
+  simp only [go3, eo2, egc, mc, u32_add]
+
+
+theorem legacyEncode_eq_model (t : OctaT) (orig pred : Int × Int) (hwf : t.WF) (ho : Octa.inGrid t orig) (hg : Octa.inGrid t pred) :
+    PredictionSchemeNormalOctahedronEncodingTransform.ComputeCorrection (ofOctaT t) orig pred =
+      Octa.legacyEncCorr t orig pred := by
+  have hwf' := hwf
+  obtain ⟨h1, h2, h3, h4⟩ := hwf'
+  have bo0' := Octa.inGrid_inBox t hwf orig ho
+  have bp0' := Octa.inGrid_inBox t hwf pred hg
+  unfold Octa.inGrid at hg ho
+  unfold PredictionSchemeNormalOctahedronEncodingTransform.ComputeCorrection Octa.legacyEncCorr
+  extract_lets gc go0 gp0 gr1 go1a go1b gr2 gp1a gp1b gk1 gk1a gk1b gk2 gk2a gk2b mc mo0 mp0 minD mo1 mp1
+  have egc : gc = (mc, mc) := rfl
+  have eo0 : go0 = mo0 := by
+    simp only [go0, mo0, egc, mc]; rw [wrapI32_id _ (by omega) (by omega), wrapI32_id _ (by omega) (by omega)]
+  have ep0 : gp0 = mp0 := by
+    simp only [gp0, mp0, egc, mc]; rw [wrapI32_id _ (by omega) (by omega), wrapI32_id _ (by omega) (by omega)]
+  have bo0 : Octa.InBox t.center mo0 := bo0'
+  have bp0 : Octa.InBox t.center mp0 := bp0'
+  have bo0u := bo0
+  have bp0u := bp0
+  unfold Octa.InBox at bo0u bp0u
+  have einD : PredictionSchemeNormalOctahedronTransformBase.IsInDiamond (ofOctaT t) gp0.1 gp0.2 = minD := by
+    simp only [minD, ep0]; exact IsInDiamond_eq_model t _ _ hwf
+  have eo1b : go1b = Octa.invertDiamond t mo0 := by
+    simp only [go1b, go1a, gr1, eo0]
+    exact InvertDiamond_eq_model t _ _ hwf (by unfold I32; omega) (by unfold I32; omega)
+  have ep1b : gp1b = Octa.invertDiamond t mp0 := by
+    simp only [gp1b, gp1a, gr2, ep0]
+    exact InvertDiamond_eq_model t _ _ hwf (by unfold I32; omega) (by unfold I32; omega)
+  have ek2 : gk2b = (Octa.makePositive t (mo0.1 - mp0.1), Octa.makePositive t (mo0.2 - mp0.2)) := by
+    simp only [gk2b, gk2a, gk2, eo0, ep0]; exact makePositive_diff t hwf _ _ bo0 bp0
+  have ek1 : gk1b = (Octa.makePositive t ((Octa.invertDiamond t mo0).1 - (Octa.invertDiamond t mp0).1),
+      Octa.makePositive t ((Octa.invertDiamond t mo0).2 - (Octa.invertDiamond t mp0).2)) := by
+    simp only [gk1b, gk1a, gk1, eo1b, ep1b]
+    exact makePositive_diff t hwf _ _ (invertDiamond_inBox t hwf mo0 bo0) (invertDiamond_inBox t hwf mp0 bp0)
+  rw [einD, ek1, ek2]
+  simp only [mo1, mp1]
+  cases minD <;> simp
+
+
 end Draco.Generated
